@@ -1,4 +1,79 @@
 package main
 
-// C10 lock-invariant mode (filled in later).
-func (x *Exec) lockInvariantHavoc(fr *Frame, m Term, bc Term, st State) {}
+// C10: lock-invariant reasoning (Owicki-Gries style) for mutex-enabled stacks.
+//
+// In a contract with mode "lock" the function is verified as one thread among
+// many: after sync.Mutex.Lock returns, the state the lock protects (the header
+// of the stack and its backing row) is forgotten and only the lock invariant
+// wf(r) (with the same configuration record) is assumed, because another
+// goroutine may have run since the function last looked.  Every store to
+// protected state must happen while the lock is held (obligation kind "lock").
+
+import "fmt"
+
+func (x *Exec) lockInvariantHavoc(fr *Frame, m Term, bc Term, st State) {
+	if x.lockRecv.S == "" {
+		return
+	}
+	r := x.lockRecv
+	h := x.C.Fresh("acq_hdr", SSlice)
+	row := x.C.Fresh("acq_row", ArrSort(SVal))
+	cs := x.comp(st, "Cell_stack")
+	mv := x.comp(st, "Mem_Val")
+	// only when the lock taken is this stack's lock
+	mine := Eq(m, x.lockMtx)
+	ncs := x.C.Def("Cell_stack_acq", Ite(mine, Store(cs, r, h), cs))
+	nmv := x.C.Def("Mem_Val_acq", Ite(mine, Store(mv, T(SInt, app("s-arr", h.S)), row), mv))
+	st["Cell_stack"] = ncs
+	st["Mem_Val"] = nmv
+	// a backing array installed by another goroutine is either the one seen before or one
+	// this goroutine has never seen: it appears as a fresh allocation
+	oldArr := T(SInt, app("s-arr", app("select", cs.S, r.S)))
+	al0 := x.comp(st, "alloc")
+	nal := x.C.Fresh("alloc_acq", SInt)
+	x.C.Assume(BoolLit(true), T(SBool, fmt.Sprintf("(and (>= %s %s) (> %s (s-arr %s)))", nal.S, al0.S, nal.S, h.S)))
+	x.C.Assume(And(bc, mine), Or(Eq(T(SInt, app("s-arr", h.S)), oldArr), T(SBool, fmt.Sprintf("(>= (s-arr %s) %s)", h.S, al0.S))))
+	st["alloc"] = nal
+	x.epochReset(st)
+	al := x.comp(st, "alloc")
+	typ := x.comp(st, "F_nodeConfig_typ")
+	cp := x.comp(st, "F_nodeConfig_cap")
+	lg := x.comp(st, "F_nodeConfig_log")
+	wf := T(SBool, app("wf", ncs.S, nmv.S, typ.S, cp.S, lg.S, al.S, r.S))
+	sameCfg := T(SBool, app("=", app("cfgOf", ncs.S, nmv.S, r.S), x.lockCfg.S))
+	x.C.Assume(And(bc, mine), And(wf, sameCfg))
+	// remember the acquisition state (merged if several paths acquire)
+	if x.acqState == nil {
+		x.acqState = st.clone()
+	} else {
+		x.acqState = x.mergeStates(bc, st.clone(), x.acqState)
+	}
+}
+
+// lockCheck: a store to protected state of the locked stack requires the lock.
+func (x *Exec) lockCheck(st State, comp string, ref Term) {
+	if x.lockRecv.S == "" || x.curFr == nil {
+		return
+	}
+	var target Term
+	switch comp {
+	case "Cell_stack":
+		target = x.lockRecv
+	case "Mem_Val":
+		target = T(SInt, app("s-arr", app("select", x.comp(st, "Cell_stack").S, x.lockRecv.S)))
+	case "F_nodeConfig_ldr":
+		target = x.lockCfg
+	default:
+		return
+	}
+	held := T(SBool, app("select", x.comp(st, "G_held").S, x.lockMtx.S))
+	body := Implies(Eq(ref, target), held)
+	fn := fnKey(x.curFr.fn)
+	if Implies(x.curBc, body).S == "true" {
+		return
+	}
+	// asserted but not assumed afterwards: a violated discipline must not make the rest of the function vacuous
+	g := &Goal{Name: x.goalName(fn, "lock", fmt.Sprintf("%s@%s", comp, x.posKey(x.curFr.fn, x.curPos))), Func: fn, Kind: "lock", Tags: []string{"C10"},
+		Text: "store to lock-protected state (" + comp + ") happens while the stack's lock is held", Pos: x.pos(x.curPos)}
+	x.C.AddGoal(g, x.curBc, body)
+}
